@@ -293,6 +293,12 @@ func genTree(r *hlib.Rng, trunkLen, nb, maxLen int, varied bool) treeSpec {
 	for i := 0; i < trunkLen; i++ {
 		p = add(p)
 	}
+	if trunkLen >= 12 {
+		// a branch that ends level with the trunk tip (a tie above the margin when difficulties are equal)
+		q := trunkLen - 2
+		q = add(q)
+		add(q)
+	}
 	for k := 0; k < nb; k++ {
 		// fork point: any existing block, biased to the trunk
 		fp := r.Intn(len(t.Par))
@@ -519,16 +525,13 @@ func main() {
 			t.Par = append(t.Par, i)
 			t.Dbits = append(t.Dbits, diffChoices[0])
 		}
-		// a branch from height 10 that overtakes the trunk, remaining blocks as a second short fork
+		// a branch from height 10 that ties with the trunk tip and then overtakes it (thorough: plus a short fork near the tip)
 		p := 10
 		for i := 0; i < exhaustOff; i++ {
 			t.Par = append(t.Par, p)
-			d := diffChoices[0]
-			if i == 1 {
-				d = diffChoices[2]
-			}
-			t.Dbits = append(t.Dbits, d)
-			if i == exhaustOff-2 {
+			// equal difficulty: the branch ties with the trunk tip at height 13 before overtaking it
+			t.Dbits = append(t.Dbits, diffChoices[0])
+			if i == exhaustOff-2 && exhaustOff > 4 {
 				p = 12 // last block forks off the trunk near the tip
 			} else {
 				p = len(t.Par) - 1
